@@ -204,8 +204,12 @@ class _LibrationDynamicsService(_DynamicsServiceBase):
         cache_key = self.make_key(id(self.domain_obj), tuple(sorted(options.to_dict().items())))
 
         def _factory() -> StabilityPipeline:
-            self.generator.compute(self.domain_obj, options=options)
-            return self.generator
+            # one pipeline per cache entry: the pipeline keeps its last result, so a
+            # shared instance would make every entry show the latest computation
+            pipeline = StabilityPipeline.with_default_engine(
+                config=self.eigendecomposition_config, interface=_LibrationPointInterface())
+            pipeline.compute(self.domain_obj, options=options)
+            return pipeline
 
         return self.get_or_create(cache_key, _factory)
 
